@@ -41,6 +41,7 @@ RULE = (
     "A case is non-trivial when some cell contains the configured delimiter, quote or escape character or a line "
     "break; distinct by hash of (configuration, table)."
     "Readings overlap: the plain round trip is read while another reading of the same text begun earlier ends after its first row; 12-30 overlap scenarios (short reading / long-cell reading, three orders) run each in a freshly forked process. Writers also get iterators and generators."
+    "Magic cells include the DOS end-of-file mark and byte order mark look-alikes, also as the last row."
 )
 ASSUMPTIONS = [
     "tables are rectangular with 1-4 columns: a row without cells is written as an empty line, which is not a table "
